@@ -204,6 +204,45 @@ pub fn length_changing_alphabet() -> &'static [char] {
     })
 }
 
+/// Names of 18 to 25 bytes (around the inline capacity of the small-string type, 23) made of one filler
+/// letter, with one length-changing letter at every position, alone or directly after a separator:
+/// fixed-size buffers and "does it still fit" decisions are about these.
+pub fn names_near_inline_capacity() -> &'static [String] {
+    static V: std::sync::OnceLock<Vec<String>> = std::sync::OnceLock::new();
+    V.get_or_init(|| {
+        let mut v = Vec::new();
+        for c in length_changing_alphabet() {
+            for sep in ["", "-", "_", ".", "-."] {
+                for len in 18..=25usize {
+                    for pos in 0..=len {
+                        for fill in ["a", "B"] {
+                            v.push(format!("{}{sep}{c}{}", fill.repeat(pos), fill.repeat(len - pos)));
+                        }
+                    }
+                }
+            }
+        }
+        // two length-changing letters (one may grow while the other shrinks, so that the byte length stays the
+        // same) at the two ends of a run that is longer than the inline capacity, and a word-final capital sigma
+        // at the end of such a run
+        let a = length_changing_alphabet();
+        for c1 in a {
+            for c2 in a {
+                for len in [20usize, 22, 24, 26] {
+                    v.push(format!("{c1}{}{c2}", "B".repeat(len)));
+                }
+            }
+        }
+        for len in 16..=28usize {
+            for tail in ["\u{3a3}", "\u{391}\u{3a3}", "\u{3a3}.\u{3a3}"] {
+                v.push(format!("{}{tail}", "A".repeat(len)));
+                v.push(format!("{}{tail}", "\u{391}".repeat(len / 2)));
+            }
+        }
+        v
+    })
+}
+
 pub fn is_valid_type(s: &str) -> bool {
     !s.is_empty() && s.bytes().all(|b| b.is_ascii_alphanumeric() || b == b'.' || b == b'+' || b == b'-')
 }
